@@ -10,17 +10,21 @@ static struct { MEnt e[4]; int n; int stopped; } M;
 static int NENT;
 static uint32_t MSPT = 1;     /* --opt slow=1: 100 Hz timer, i.e. 10 ms per tick; every time of the alphabet is then given in units of 10 ms */
 
-static const uint8_t HB_NODE[] = { NX, NY, NZ }, HB_STATE[] = { 0, 4, 5, 127 };
+#define NW 12
+static const uint8_t HB_NODE[] = { NX, NY, NZ, NW }, HB_STATE[] = { 0, 4, 5, 127 };
+static int WIDE4;    /* cfg 6: four entries with four distinct times (2, 3, 4, 6 ticks), alphabet reduced to the four heartbeats and the tick, so that
+                        histories of ten events are explored: four consumer timers pending at once, a restarted one queued between any two others */
 static const uint8_t WR_NODE[] = { NX, NX, NX, NY, NY, NY, 0 };  static const uint16_t WR_TIME[] = { 0, 2, 3, 0, 2, 3, 0 };
 #define NWR 7
 static int ev_write0, ev_getev0, ev_last0, ev_tick, ev_sat, ev_stop, ev_start, ev_reset, n_ev;
 
-static const char *cfg_name(int c) { static const char *const n[] = { "1 entry {X}", "2 entries {X,Y}", "2 entries {X,-}", "3 entries {X,Y,-}", "3 entries empty", "4 entries {X,Y,-,-}" }; return n[c]; }
+static const char *cfg_name(int c) { static const char *const n[] = { "1 entry {X}", "2 entries {X,Y}", "2 entries {X,-}", "3 entries {X,Y,-}", "3 entries empty", "4 entries {X,Y,-,-}", "4 entries {X/2,Y/3,Z/4,W/6}, heartbeats and ticks only" }; return n[c]; }
 
 static int build(int cfg)
 {
     static const struct { int n; uint8_t node[4]; uint16_t time[4]; } C[] = {
-        { 1, { NX }, { 2 } }, { 2, { NX, NY }, { 2, 3 } }, { 2, { NX, 0 }, { 2, 0 } }, { 3, { NX, NY, 0 }, { 2, 3, 0 } }, { 3, { 0, 0, 0 }, { 0, 0, 0 } }, { 4, { NX, NY, 0, 0 }, { 3, 2, 0, 0 } } };
+        { 1, { NX }, { 2 } }, { 2, { NX, NY }, { 2, 3 } }, { 2, { NX, 0 }, { 2, 0 } }, { 3, { NX, NY, 0 }, { 2, 3, 0 } }, { 3, { 0, 0, 0 }, { 0, 0, 0 } }, { 4, { NX, NY, 0, 0 }, { 3, 2, 0, 0 } }, { 4, { NX, NY, NZ, NW }, { 2, 3, 4, 6 } } };
+    WIDE4 = (cfg == 6);
     nc_defaults();
     MSPT = mc_opt("slow", 0) ? 10 : 1; NC.freq = 1000 / MSPT;
     NENT = C[cfg].n; NC.n_hbc = NENT;
@@ -30,7 +34,7 @@ static int build(int cfg)
     memset(&M, 0, sizeof M); M.n = NENT;
     for (int i = 0; i < NENT; i++) { M.e[i].node = C[cfg].node[i]; M.e[i].time = C[cfg].time[i]; }
     W_REG(M);
-    ev_write0 = 12; ev_getev0 = ev_write0 + NWR * NENT; ev_last0 = ev_getev0 + 3; ev_tick = ev_last0 + 2; ev_sat = ev_tick + 1; ev_stop = ev_sat + 1; ev_start = ev_stop + 1; ev_reset = ev_start + 1; n_ev = ev_reset + 1;
+    ev_write0 = WIDE4 ? 16 : 12; ev_getev0 = ev_write0 + NWR * NENT; ev_last0 = ev_getev0 + 3; ev_tick = ev_last0 + 2; ev_sat = ev_tick + 1; ev_stop = ev_sat + 1; ev_start = ev_stop + 1; ev_reset = ev_start + 1; n_ev = ev_reset + 1;
     return n_ev;
 }
 
@@ -73,6 +77,7 @@ static void model_tick(int *ev_expect)
 
 static int step(int e)
 {
+    if (WIDE4 && !(e < ev_write0 && e % 4 == 2) && e != ev_tick) return MC_SKIP;
     int ev_expect[256] = { 0 }, chg_node = -1, chg_mode = 0;
     if (e < ev_write0) {
         uint8_t node = HB_NODE[e / 4], st = HB_STATE[e % 4], d[1]; int k = mon(node);
@@ -117,5 +122,5 @@ static int step(int e)
     return MC_OK;
 }
 
-static const mc_harness H = { "C11", "c11", 6, cfg_name, build, ev_name, step, 6, 7 };
+static const mc_harness H = { "C11", "c11", 7, cfg_name, build, ev_name, step, 6, 7 };
 int main(int argc, char **argv) { return mc_main(argc, argv, &H); }
